@@ -166,7 +166,7 @@ class VirtRig:
 
     def __init__(self, cfg: dict, schedule: list, *, shape_seed: int = 0, beh: Optional[dict] = None,
                  int_lines: Optional[list] = None, count_lines: bool = False, storage=None, prior: Optional[list] = None, default_policy: str = 'finish',
-                 max_events: int = 4000):
+                 max_events: int = 4000, progress: bool = False):
         self.cfg, self.schedule = cfg, [list(x) for x in schedule]
         self.pos = 0
         self.shape_seed, self.beh = shape_seed, beh
@@ -190,6 +190,8 @@ class VirtRig:
         self.pending_int: Optional[list] = None
         self.count_lines = count_lines
         self.prior = prior or []
+        self.progress = progress     # observe the progress bars (a recording stand-in for labtech.lab.tqdm)
+        self.tnames = None
         self.int_lines = int_lines   # line-boundary injection: list of global line-event indices
         self.line_count = 0
         self.in_worker = 0
@@ -467,6 +469,12 @@ class VirtRig:
             D.prepare_storage(cfg, storage, self.shape_seed)
         built = D.Built(cfg, self.shape_seed, beh=self.beh)
         req = built.requested()
+        if not cfg.get('twins') and not cfg.get('mainmod'):
+            by_type = {}
+            for t in range(1, cfg['n'] + 1):
+                by_type.setdefault(cfg['typ'][t - 1], built.cls(t))
+            self.tnames = [by_type[y].__name__ if y in by_type else '' for y in range(1, len(cfg['maxpar']) + 1)]
+            self._qual_to_y = {c.__qualname__: y for y, c in by_type.items()}
         if self.prior:
             # an earlier, unrelated run_tasks call on the very same task *instances* (another Lab, no storage, another
             # epoch): nothing of it may leak into the call under observation
@@ -515,9 +523,13 @@ class VirtRig:
                     raise RigHang('no progress: run_tasks did not finish')
                 old_alarm = signal.signal(signal.SIGALRM, _alarm)
                 signal.setitimer(signal.ITIMER_REAL, VirtRig.WATCHDOG_S)
+                saved_tqdm = labtech.lab.tqdm
+                if self.progress:
+                    labtech.lab.tqdm = _rec_tqdm(self)
                 try:
-                    res = lab.run_tasks(req, bust_cache=cfg['bust'], disable_progress=True, disable_top=True)
+                    res = lab.run_tasks(req, bust_cache=cfg['bust'], disable_progress=not self.progress, disable_top=True)
                 finally:
+                    labtech.lab.tqdm = saved_tqdm
                     signal.setitimer(signal.ITIMER_REAL, 0)
                     signal.signal(signal.SIGALRM, old_alarm)
                     if tracer:
@@ -572,6 +584,29 @@ class VirtRig:
                 return local
             return None
         return tracer
+
+
+def _rec_tqdm(rig):
+    """A stand-in for the progress-bar class used by TaskCoordinator.get_pbar: records creation (type, total), every
+    update and the close as trace events (y = 0: the description names no type of the configuration)."""
+    class RecTqdm:
+        def __init__(self, *a, desc=None, total=None, disable=False, **kw):
+            self.y = getattr(rig, '_qual_to_y', {}).get(desc, 0)
+            self.disable = disable
+            rig.trace.append({'e': 'pb_new', 'y': self.y, 'total': -1 if total is None else int(total), 'desc': str(desc)})
+
+        def update(self, n=1):
+            rig.trace.append({'e': 'pb_upd', 'y': self.y, 'k': int(n)})
+
+        def refresh(self, *a, **kw):
+            pass
+
+        def close(self):
+            rig.trace.append({'e': 'pb_close', 'y': self.y})
+
+        def set_description_str(self, *a, **kw):
+            pass
+    return RecTqdm
 
 
 class _Collect(logging.Handler):
